@@ -145,7 +145,7 @@ theorem begin_exit_ends_run (src : Bytes) (tbl : RuleTable) (sels : List Bytes)
           (newEvaluator prog Heap.empty [] 0) = .ok .exit s) :
     (runProgram prog src tbl sels files).out = s.output ∧
     (match (runProgram prog src tbl sels files).outcome with | .ok => True | _ => False) := by
-  simp [runProgram, h]
+  simp [runProgram, finishRun, h]
 
 /-- `exit` while processing input ends the run successfully without END rules -/
 theorem input_exit_skips_end (src : Bytes) (tbl : RuleTable) (sels : List Bytes)
@@ -154,7 +154,7 @@ theorem input_exit_skips_end (src : Bytes) (tbl : RuleTable) (sels : List Bytes)
           (newEvaluator prog Heap.empty [] 0) = .ok .continue_ s1)
     (hf : processFiles prog src tbl sels files s1 = .finished .ok s2) :
     (runProgram prog src tbl sels files).out = s2.output := by
-  simp [runProgram, hb, hf]
+  simp [runProgram, runFiles, finishRun, hb, hf]
 
 /-- END rules run once after all input, in the state the input left -/
 theorem end_after_all_input (src : Bytes) (tbl : RuleTable) (sels : List Bytes)
@@ -164,7 +164,7 @@ theorem end_after_all_input (src : Bytes) (tbl : RuleTable) (sels : List Bytes)
     (hf : processFiles prog src tbl sels files s1 = .done s2)
     (he : evalSpecialRules prog (newCell (.nil none)) (rulesOf prog .end_) s2 = .ok fl s3) :
     (runProgram prog src tbl sels files).out = s3.output := by
-  simp [runProgram, hb, hf, he]
+  simp [runProgram, runFiles, runEnd, finishRun, hb, hf, he]
 
 /-- files are processed in the order given -/
 theorem files_in_order (src : Bytes) (tbl : RuleTable) (sels : List Bytes) (f : InputFile)
